@@ -20,7 +20,8 @@ LEVEL_TEXT = ("Operation sequences over {create, get, update, delete, cleanup(ma
               "depth 8 (thorough) on a 3-session universe, plus seeded sequences to length 200."
               " Two neighbour handlers of the same process perform their own session operations between every step."
               ' The id monitor also re-seeds the random module between draws.'
-              ' Also an initialize without an id.')
+              ' Also an initialize without an id.'
+              ' Every case also runs under the dependency-free validation backend.')
 LEVEL_NOTE = ("Trusted: the reference model (30 lines) and the clock patch on chuk_mcp.server.session.memory.time. "
               "Only the in-memory manager shipped with the library is exercised.")
 RULE = ("sequence of operations; non-trivial = contains at least one creating op followed by another op; distinct = "
